@@ -232,17 +232,19 @@ def run():
                      'non-trivial = every injected fault was reached, or the fault-free run of a configuration that must be refused / whose body raises',
                 bounds=dict(quick='singles: overwrite x overwrite_part x rm_part_on_exc x text_mode x file_perms {None,0o600,0o644} x umask {022,077} '
                                   'x dest {absent,present} x part {absent,present} x body {ok, raises, dest appears (overwrite=False)}: every event; '
-                                  'pairs: the same with text_mode=False, umask=022, file_perms in {None,0o600}; the same AtomicSaver object used for two '
+                                  'pairs: the same with text_mode=False, umask=022, file_perms in {None,0o600}; every single fault also with errno EINVAL, '
+                                  'ENOTSUP, ENOSPC, EINTR (text_mode=False, umask=022, file_perms=None); the same AtomicSaver object used for two '
                                   'saves (failed attempt then retry / two completed saves) x umask {022,027,077} x file_perms {None,0o640}',
                             thorough='singles and all pairs (k, j>k along the path after fault k) for the full product'))
     root = tempfile.mkdtemp(prefix='verif-C05-')
     nfail = [0]
 
-    def one(cfg, faults, attributed=None):
-        r = F.fault_run(cfg, faults, root, retry=lambda res: want_retry(cfg, res))
+    def one(cfg, faults, attributed=None, fault_errno=None):
+        import errno as _errno
+        r = F.fault_run(cfg, faults, root, retry=lambda res: want_retry(cfg, res), fault_errno=fault_errno or _errno.EIO)
         fl = fired(r['log'])
         reached = len(fl) == len(faults)
-        H.ev(key=(tuple(sorted(cfg.items(), key=str)), tuple(sorted(faults))),
+        H.ev(key=(tuple(sorted(cfg.items(), key=str)), tuple(sorted(faults)), fault_errno),
              nontrivial=reached and bool(faults or static_refusal(cfg) or cfg['body'] != 'ok'),
              sample=dict(cfg=cfg, faults=[r['log'][i]['op'] for i in sorted(faults) if i < len(r['log'])],
                          exc=repr(r['exc']), listing=r['listing']),
@@ -275,6 +277,13 @@ def run():
                 for i in range(len(ops0)):
                     ri, single[i] = one(cfg, {i}, res0)
                     logs[i] = [e['op'] for e in ri['log']]
+                if not text and um == 0o022 and perms is None:
+                    # the error number must not matter: "the operating system reports an error at any step" (EINVAL/ENOTSUP are
+                    # what a file system without fsync answers, ENOSPC/EDQUOT a full disk, EINTR an interrupted call)
+                    import errno as _errno
+                    for i in range(len(ops0)):
+                        for en in (_errno.EINVAL, _errno.ENOTSUP, _errno.ENOSPC, _errno.EINTR):
+                            one(cfg, {i}, dict(single[i], **res0), fault_errno=en)
                 for i in range(len(ops0) if pairs else 0):
                     for j in range(i + 1, len(logs[i])):
                         # same defect as the fault-free run / the single fault when that already breaks the clause
